@@ -72,7 +72,7 @@ Definition run_piece (cfg : config) (fuel : nat) (st : state) (p : piece) : stat
   match p with
   | PUntil t => run_loop cfg fuel t st
   | PFor d => run_loop cfg fuel (s_time st + d) st
-  | PNext => let '(s, l) := run_next cfg st in (s, l, true)
+  | PNext => let '(s, l) := run_next cfg st in (s, l, negb (has_raise l))
   end.
 
 Fixpoint run_pieces (cfg : config) (fuel : nat) (st : state) (ps : list piece) : state * list logitem * bool :=
